@@ -74,6 +74,18 @@ pub fn run(t: &[String]) -> String {
             Tok::Absent => "BADCASE".into(),
             Tok::Bad(e) => e.into(),
         },
+        // surf_enc2 <val> <val>: the two keys
+        "surf_enc2" => {
+            let mut out = Vec::new();
+            for k in 1..3 {
+                match value(&t[k]) {
+                    Tok::Val(v) => out.push(match encode_value(&v) { Some(b) => hexs(&b), None => "N".into() }),
+                    Tok::Absent => return "BADCASE".into(),
+                    Tok::Bad(e) => return e.into(),
+                }
+            }
+            out.join(" ")
+        }
         // surf_trie <ge|le> <incl:0|1> <target hex> <key hex>*
         "surf_trie" => {
             let keys: Vec<Vec<u8>> = t[4..].iter().map(|k| unhex(k)).collect();
